@@ -83,8 +83,23 @@ def ends_in_throw(f, b):
 def guard_classes(P, f):
     """local classes of f with a destructor that closes a FITS file: class qname -> (dtor Function, field name)."""
     out = {}
+    # classes of f's locals (a guard shared by several writers lives at namespace scope)
+    local_types = set()
+    for i in f.walk():
+        if f.k(i) == "DeclStmt":
+            for d in f.nodes[i]["decls"]:
+                if d.get("dk") == "Var":
+                    t = d.get("ctype", d.get("type", "")).replace("struct ", "").replace("class ", "").replace("const ", "").strip()
+                    local_types.add(t.split("::")[-1])
+    own = set()
     for g in P.functions.values():
         if g.kind == "dtor" and g.d.get("localClassOf") == f.usr:
+            own.add(g.cls.split("::")[-1])
+    for g in P.functions.values():
+        if g.kind != "dtor":
+            continue
+        shared = g.cls and not g.d.get("localClassOf") and g.cls.split("::")[-1] in local_types - own and g.unit == f.unit
+        if g.d.get("localClassOf") == f.usr or shared:
             closes = [i for i, cal in g.calls() if cal and cal["name"] in RELEASE]
             if closes:
                 out[g.cls] = g
